@@ -156,6 +156,30 @@ CHECKS = {
         note="Trusted: Lean kernel; axioms propext/Quot.sound/Classical.choice; Spec/Rfc2047Dec.lean as the reading of RFC 2047; model + harness. "
              "Not yet proved: unstructured_roundtrip (checked on real outputs only).",
         technique="Lean 4 proof (encoded-word validity, base64 inverse) + correspondence with an independent RFC 2047 reader on real output"),
+    "C17": dict(
+        category="proof",
+        text="Lean theorems on the header map (get_after_set under any letter case, one_entry_per_name, name_case_insensitive) and "
+             "date_time_of_day. The mailbox round trip (display, then the chumsky grammar transcribed as a PEG, then Address::new) and the "
+             "civil-date round trip are stated in Props/C17.lean and not proved: partial. They are tied by the correspondence check: the "
+             "Display model, the PEG model (grammar observed through a hook, on valid and malformed texts), the date model (first and last "
+             "second of every month 1970..9999; every day in thorough) each agree with the code, and the property itself (display -> parse, "
+             "serde, Headers set -> get, the display name and RFC 2231 file name decoded from the wire form by independent readers) is "
+             "evaluated on every generated value.",
+        design_ref="DESIGN.md 5 C17",
+        note="Trusted: Lean kernel; axioms propext/Quot.sound/Classical.choice; Spec/StructuredDec.lean; the mime crate (A4); model + harness. Three "
+             "defects fixed in /repo (CR/LF/NUL names, quoted local parts, address literals).",
+        technique="Lean 4 proof (header map) + model-vs-code correspondence of display, PEG grammar and date arithmetic with property oracles"),
+    "C01": dict(
+        category="proof",
+        text="Lean theorems stating the decision logic of the typed store outright: spec_errors_exact, spec_envelope_exact (To, Cc, Bcc in "
+             "order; Sender else single From), spec_explicit_envelope, spec_calls_accumulate. The refinement of the code's text store "
+             "(re-parse, join, re-display on every call: Model/Builder.lean) to that typed store holds when mailbox lists round-trip "
+             "(C17) and is not yet proved in Lean: partial. Correspondence: random builder programs of 1..14 calls over adversarial names "
+             "and every address class; both the model of the code and the typed-store specification are compared with Message::envelope(), "
+             "the error kind, and the presence of Bcc in the formatted header section.",
+        design_ref="DESIGN.md 5 C01",
+        note="Trusted: Lean kernel; axioms propext/Quot.sound/Classical.choice; Builder.specBuild as the meaning of the property; model + harness.",
+        technique="Lean 4 proof of the specification's decision logic + model-and-spec-vs-code correspondence on random builder programs"),
 }
 
 NOT_APPLICABLE = {
